@@ -9,10 +9,11 @@ CONSTANTS
     MaxN,                 \* beacons 1..MaxN
     Universe,             \* "hostile" | "ancillary" | "failures" | "pre"
     ExcuseImmArchive,     \* KNOWN_FINDINGS C19-immutable-archive-*
-    ExcuseMerged          \* KNOWN_FINDINGS C19-manifest-hash-not-injective
+    ExcuseMerged,         \* KNOWN_FINDINGS C19-manifest-hash-not-injective
+    ExcuseAncLink         \* KNOWN_FINDINGS C19-ancillary-symlink-at-listed-path
 
 Honest(lo, hi) == [i \in lo..hi |-> [status |-> "ok", extra |-> {}]]
-HonestAnc      == [status |-> "ok", manifest |-> "ok", extra |-> {}]
+HonestAnc      == [status |-> "ok", manifest |-> "ok", extra |-> {}, at |-> "file"]
 
 BaseCase(N, lo, hi, anc) ==
     [N |-> N, lo |-> lo, hi |-> hi, anc |-> anc, override |-> FALSE, net |-> "known", conflict |-> FALSE,
@@ -39,8 +40,9 @@ Cases(N, lo, hi, anc) ==
            {[b EXCEPT !.arch[h].extra = x, !.net = net] :
                h \in {lo, hi}, x \in HostileSets(N, lo, hi), net \in {"known", "unknown"}}
       [] Universe = "ancillary" ->
-           {[b EXCEPT !.ancArch = [status |-> "ok", manifest |-> v, extra |-> x], !.net = net] :
+           {[b EXCEPT !.ancArch = [status |-> "ok", manifest |-> v, extra |-> x, at |-> "file"], !.net = net] :
                v \in ManifestVariants, x \in AncExtras, net \in {"known", "unknown"}}
+           \cup {[b EXCEPT !.ancArch.at = k, !.ancArch.extra = x] : k \in EntryKinds \ {"file"}, x \in AncExtras}
            \cup {[b EXCEPT !.ancArch.status = "missing"]}
            \cup {[b EXCEPT !.conflict = TRUE, !.override = TRUE, !.pre = {Occupied}]}
       [] Universe = "failures" ->
@@ -67,6 +69,7 @@ IsImmSrc(src) == src.k = "imm"
 Excused(p, src) ==
     \/ ExcuseImmArchive /\ IsImmSrc(src)                 \* placed by an immutable archive
     \/ ExcuseMerged /\ kase.ancArch.manifest = "merged" /\ src = Anc
+    \/ ExcuseAncLink /\ src = AncLink
 
 OnlyAllowed ==
     pc = "done" => \A p \in DOMAIN target : Allowed(kase, p, target[p]) \/ Excused(p, target[p])
@@ -89,6 +92,7 @@ GenPrint ==
                                           [i |-> kase.lo + j - 1, status |-> kase.arch[kase.lo + j - 1].status,
                                            extra |-> PathSeq(kase.arch[kase.lo + j - 1].extra)]],
                              ancArch |-> [status |-> kase.ancArch.status, manifest |-> kase.ancArch.manifest,
+                                          at |-> kase.ancArch.at,
                                           extra |-> PathSeq(kase.ancArch.extra)],
                              label |-> Universe,
                              predResult |-> result,
